@@ -105,6 +105,7 @@ static Bytes canon_hll(const Bytes& b) {
 static void hll_fill(hll_sketch& s, uint64_t n, uint64_t base) { for (uint64_t i = 0; i < n; ++i) s.update(base + i); }
 
 static void case_hll(Rng& r) {
+  describe("hll (generating state)");
   const bool T = G().thorough();
   const target_hll_type type = static_cast<target_hll_type>(r.below(3));
   uint8_t lg_k = static_cast<uint8_t>(r.chance(0.5) ? r.range(4, 7) : r.range(8, T ? 13 : 11));
@@ -226,6 +227,7 @@ static std::string observe_cpc(const cpc_sketch& s) {
 }
 
 static void case_cpc(Rng& r) {
+  describe("cpc (generating state)");
   const bool T = G().thorough();
   const uint8_t lg_k = static_cast<uint8_t>(r.chance(0.6) ? r.range(4, 7) : r.range(8, T ? 12 : 10));
   const uint64_t k = 1ULL << lg_k;
